@@ -44,7 +44,10 @@ def _step_defs(sx, fi, names):
     for s in fi.node.body:
         if isinstance(s, ast.Assign):
             tg = [n.id for t in s.targets for n in ast.walk(t) if isinstance(n, ast.Name)]
-            if tg and all(t in names for t in tg):
+            plain = all(isinstance(t, (ast.Name, ast.Tuple)) for t in s.targets)
+            # the named lengths, plus any scalar temporary computed from them (nfull = nsx + nsw)
+            if tg and (all(t in names for t in tg) or (plain and not any(isinstance(n, ast.Call) and call_name(n) not in ("int", "ns_optim_fft", "len") for n in ast.walk(s.value))
+                                                      and not any(isinstance(n, (ast.Subscript, ast.Attribute)) for n in ast.walk(s.value)))):
                 sx.step(s)
 
 
@@ -167,6 +170,8 @@ def d2_same_crop(ctx):
         el = sl.elts if isinstance(sl, ast.Tuple) else [sl]
         if isinstance(el[-1], ast.Slice) and el[-1].lower is None and el[-1].upper is not None:
             ev = Evaluator(facts=_facts())
+            sx0 = SymExec(ev, on_undecided="havoc")
+            _step_defs(sx0, fi, ())
             okp = ev.ev(el[-1].upper) == Poly.sym("nsx") + Poly.sym("nsw")
     ctx.check(okp, fi, rm[0] if rm else fi.node, rm[0] if rm else "xw[..., :nsx+nsw]", "padding is cut back to nsx + nsw samples before cropping", "padding removal does not keep nsx + nsw samples (the crop bounds assume it)",
               key="unpad")
